@@ -374,6 +374,11 @@ fn run(ctx: &RunCtx) -> Report {
     let held_stream = rng.chance(1, 6);
     let n_raw = if held_stream { rng.usize(20, 70) } else { rng.usize(2, 14) };
     let n_real = rng.usize(0, 3);
+    // 1 run in 25 (own random stream): a *deep network* - 210..280 further peers form a long descent towards one
+    // of the targets: each knows only the next three closer ones, so a lookup of that target contacts every one
+    // of them (well over 200 addresses) and is told about a closer node by almost every answer
+    let mut drng = Rng::new(crate::rng::key(ctx.seed, &[crate::rng::tag("c06-deep")]));
+    let deep = !held_stream && drng.chance(1, 25);
     // 1 run in 5 (own random stream, so that the other draws stay as they were): a *public caller* - a
     // node on a routable address without a configured public_ip. Its peers vote for its address, it pings
     // itself and re-keys to a BEP42 id at a seeded instant of its first seconds, while a dense train of
@@ -424,11 +429,35 @@ fn run(ctx: &RunCtx) -> Report {
         rawnet.add(&sim, p);
         addrs.push(addr);
     }
+    let mut deep_head: Option<usize> = None;
+    if deep {
+        let m = drng.usize(210, 280);
+        let target = hashes[0];
+        let base = rawnet.len();
+        for i in 0..m {
+            // distance to the target shrinks with i: the first differing bit moves from bit 0 towards bit 150
+            let level = i * 150 / m;
+            let mut id = target;
+            id[level / 8] ^= 0x80 >> (level % 8);
+            for b in (level / 8 + 2)..20 {
+                id[b] = drng.below(256) as u8;
+            }
+            let mut p = Peer::new(id, SocketAddrV4::new(priv_ip(2000 + i), 6881));
+            p.k = 20;
+            p.delay = drng.range(0, 30) * MS;
+            p.knows = (i + 1..(i + 4).min(m)).map(|x| base + x).collect();
+            rawnet.add(&sim, p);
+        }
+        deep_head = Some(base);
+        report.probe("deep_network_runs", 1);
+    }
     // limited knowledge so that lookups iterate
     for i in 0..n_raw {
         let mut knows: Vec<usize> = (0..n_raw).collect();
         rng.shuffle(&mut knows);
         knows.truncate(rng.usize(1, n_raw));
+        // (the shallow end of the deep descent is known to every ordinary peer)
+        let knows = if let Some(h) = deep_head { let mut k = knows; k.push(h); k } else { knows };
         rawnet.with_peer(i, |p| p.knows = knows);
     }
     for j in 0..n_real {
@@ -551,6 +580,10 @@ fn run(ctx: &RunCtx) -> Report {
         if force_mutable_pair && i < 2 {
             kind = 1;
         }
+        if deep && i == 0 {
+            kind = *r.pick(&[8u64, 6, 2]);
+            j = 0;
+        }
         let held = held_stream && i == 0;
         if held {
             kind = *r.pick(&[5u64, 6, 9]);
@@ -590,6 +623,8 @@ fn run(ctx: &RunCtx) -> Report {
         if kind == 1 {
             plan.push(format!("         put_mutable seq={seq} cas={cas:?} value={}", String::from_utf8_lossy(mval)));
         }
+        // get_mutable: half of the calls ask only for items more recent than some seq (around the seqs in use)
+        let more_recent_than: Option<i64> = if r.chance(1, 2) { Some(r.range(1, 7) as i64) } else { None };
         sim.at(at, move |sim| {
             let pk = keys[j].verifying_key().to_bytes();
             let op = match kind {
@@ -601,7 +636,7 @@ fn run(ctx: &RunCtx) -> Report {
                 5 if held => sim.get_mutable_held(caller, pk, None, release_at),
                 6 if held => sim.get_peers_held(caller, hashes[j], release_at),
                 9 if held => sim.get_signed_peers_held(caller, hashes[j], release_at),
-                5 => sim.get_mutable(caller, pk, None, None),
+                5 => sim.get_mutable(caller, pk, None, more_recent_than),
                 6 => sim.get_peers(caller, hashes[j]),
                 7 => sim.find_node(caller, krpc::immutable_target(&values[vj])),
                 8 => sim.get_closest_nodes(caller, hashes[j]),
